@@ -722,3 +722,28 @@ def r13_13(ctx):
 def r13_14(ctx):
     from .c11 import r11_8
     r11_8(ctx)
+
+
+@rule("R13.15", min_instances=5, desc="clear_constraints() withdraws every declared constraint, on every grid (simulated on a stage that carries one constraint per grid), and invalidates the transcription")
+def r13_15(ctx):
+    from ..sim import Sim, fresh_obj
+    from ..layout import Sym, LayoutUnknown
+    P = ctx.prog
+    f = P.own_method("Stage", "clear_constraints")
+    GRIDS = ["point", "control", "inf", "integrator", "integrator_roots"]
+    cons = {g: [(Sym("c", g), Sym("m"), {})] for g in GRIDS}
+    me = fresh_obj("self", _constraints=cons)
+    inval = []
+    hooks = {"defaultdict": lambda s_, r, a, k, n: {}, "._set_transcribed": lambda s_, r, a, k, n: inval.append(a[0] if a else None), "HashDict": lambda s_, r, a, k, n: {}}
+    sim = Sim(P, hooks=hooks)
+    sim.self_class = "Stage"
+    try:
+        sim.call(f, [me], {})
+    except LayoutUnknown as e:
+        raise AnalysisError("Stage.clear_constraints could not be simulated: %s" % e)
+    table = me.attrs.get("_constraints")
+    for g in GRIDS:
+        left = table.get(g, []) if isinstance(table, dict) else "<not a table>"
+        ctx.check(left == [] or left is None, "clear_constraints removes the %s constraints" % g, detail="a constraint withdrawn by the user stays in the next NLP", expected="no constraint left on grid %s" % g,
+                  found=str(left)[:80], fi=f)
+    ctx.check(inval == [False], "clear_constraints invalidates the transcription", detail="the next solve reuses the NLP with the withdrawn constraints", expected="self._set_transcribed(False)", found=str(inval), fi=f)
